@@ -349,4 +349,4 @@ Definition request_fields (r : request) : list Z :=
   fst (rq_chip r) :: snd (rq_chip r) :: rq_core r :: cmd_fields (rq_cmd r).
 
 Definition trace_digest (tr : list request) : Z :=
-  fold_left (fun h r => fold_left (fun h v => (h * 1000003 + v + 1) mod 1000000007) (request_fields r) h) tr 0.
+  fold_left (fun h r => fold_left (fun h v => Z.land (h * 1000003 + v + 1) 1073741823) (request_fields r) h) tr 0.
